@@ -216,7 +216,9 @@ def make_build(rec, seed, acc):
         # write candidates: arrays the caller supplied, and held arrays reachable through a
         # public attribute or property (recursively through public names of nested matrices)
         w.writable_candidates = {}
-        for i, a in enumerate(supplied):
+        # arrays the caller supplied, with the value they had when they were handed over
+        w.supplied = list(zip(supplied.arrays, supplied.snapshots))
+        for i, a in enumerate(supplied.arrays):
             w.writable_candidates[id(a)] = (f"supplied:{held.get(id(a), 'arg')}", a)
         w.held = held
         w.names = op_names(w.m)
@@ -249,7 +251,12 @@ def make_invariant(rec, seed, acc):
         m = w.m
         cls_name[0] = type(m).__name__
         acc.count("invariant_evaluations")
-        # (a) parameter arrays unchanged
+        # (a) arrays supplied by the caller still hold the values they were handed over with
+        for arr, snap in w.supplied:
+            if not np.array_equal(arr, snap, equal_nan=True):
+                viol("parameter_changed", hist, "caller_supplied_array_modified", arr, snap)
+                return
+        # (a') parameter arrays unchanged
         for path, arr, snap in w.params:
             if not np.array_equal(arr, snap, equal_nan=True):
                 viol("parameter_changed", hist, f"param:{path}", arr, snap)
@@ -491,6 +498,11 @@ def configs(tier, seed):
     for n in (1, 2, 3):
         for r in mzoo.leaf_recipes(n) + mzoo.composite_recipes(n):
             cfgs.append({"mode": "bfs", "recipe": r, "seed": seed, "depth": depth})
+        if n >= 2:
+            # the same leaves with their 2-D parameter arrays supplied in Fortran order
+            for r in mzoo.leaf_recipes(n):
+                cfgs.append({"mode": "bfs", "recipe": ["leaf_f", r[1], r[2]], "seed": seed,
+                             "depth": 0})
         cfgs.append({"mode": "pairs", "n": n, "seed": seed})
     return cfgs
 
